@@ -137,16 +137,23 @@ func (qr *queryResult) mergeBatch(
 	var lastVersion int64
 	var lastSid common.SeriesID
 
-	for qr.Len() > 0 && b.RowCount() < mergeBatchMaxRows {
+	for qr.Len() > 0 {
 		topBC := qr.data[0]
 		// Series boundary: stop and let the caller call again for the next series.
 		if lastSid != 0 && topBC.bm.seriesID != lastSid {
 			break
 		}
+		duplicate := b.RowCount() > 0 &&
+			topBC.timestamps[topBC.idx] == b.Timestamps[len(b.Timestamps)-1]
+		// The row cap must not fall between two versions of one data point: the remaining
+		// versions are still folded into the last row, otherwise the next call would emit
+		// them as a row of their own.
+		if b.RowCount() >= mergeBatchMaxRows && !duplicate {
+			break
+		}
 		lastSid = topBC.bm.seriesID
 
-		if b.RowCount() > 0 &&
-			topBC.timestamps[topBC.idx] == b.Timestamps[len(b.Timestamps)-1] {
+		if duplicate {
 			// Duplicate timestamp within the same series: keep the higher version.
 			if topBC.versions[topBC.idx] > lastVersion {
 				topBC.replaceInBatch(b, schema, storedIndexValue)
